@@ -43,10 +43,11 @@ from ipv8.messaging.anonymization.payload import (
     ExtendedPayload,
     ExtendPayload,
 )
+from ipv8.messaging.anonymization.caches import RetryRequestCache
 from ipv8.messaging.anonymization.tunnel import CIRCUIT_STATE_READY, FORWARD
 from ipv8_rust_tunnels import crypto_auth, crypto_auth_verify, generate_session_keys
 
-from .. import core, fixtures
+from .. import core, fixtures, seams
 from ..simnet import Datagram
 from ..tunnelworld import BT_PAYLOAD, EXIT_ALL, EXIT_BT, RELAY, TunnelWorld
 
@@ -189,8 +190,10 @@ class Monitor:
         self.extends_seen: dict[str, dict[int, dict]] = {n: {} for n in world.nodes if n != "O"}
         self.raw_data: list[bytes] = []
         self.ends: list[dict] = []                           # responder-side location of every honestly established hop
+        self.accept_listeners: list = []
         self.notes: Counter = Counter()
         self.pub2name = {n.my_peer.public_key.key_to_bin(): name for name, n in world.nodes.items()}
+        self.addr2name = {tuple(n.address): name for name, n in world.nodes.items()}
         self._last_join: dict[str, bytes] = {}
         self._hook_origin()
         for name in self.held:
@@ -253,6 +256,24 @@ class Monitor:
             self.raw_data.append(bytes(data))
         ov.on_raw_data = on_raw_data
 
+        # an attempt stops being outstanding when its RetryRequestCache timed out (the originator gave up on that peer)
+        orig_add = ov.request_cache.add
+
+        def add(cache):  # noqa: ANN001, ANN202
+            if isinstance(cache, RetryRequestCache):
+                orig_timeout = cache.on_timeout
+                ident = cache.packet_identifier
+                cid = cache.circuit.circuit_id
+
+                def on_timeout():  # noqa: ANN202
+                    for att in self.attempts.get(cid) or []:
+                        if att["ident"] == ident and "timed_out" not in att:
+                            att["timed_out"] = self.w.loop.time()
+                    return orig_timeout()
+                cache.on_timeout = on_timeout
+            return orig_add(cache)
+        ov.request_cache.add = add
+
     def _on_answer(self, kind: str, cid: int, f: dict, c, pre: int | None, src: tuple, att: dict | None) -> None:  # noqa: ANN001
         post = len(c.hops) if c is not None else None
         accepted = c is not None and pre is not None and post > pre
@@ -264,10 +285,14 @@ class Monitor:
         hop = c.hops[pre]
         where = f"{kind} for circuit #{self._cno(c)} accepted as hop {pre} at t={self.w.loop.time():.1f}"
         reasons = []
-        if att is None or att["n_hops"] != pre:
+        for cb in self.accept_listeners:
+            cb(rec)
+        if att is None or att["n_hops"] != pre or "timed_out" in att:
             # literal: a hop without a corresponding create/extend cannot "name the peer the originator selected"
+            why = (f"its {att['kind']} to {self.pub2name.get(att['selected'], '?')} had timed out at t={att['timed_out']:.1f}"
+                   if att is not None and "timed_out" in att and att["n_hops"] == pre else "none was sent for that position")
             self.flag("hop-list:no-outstanding-attempt", f"{where} although the originator had no create/extend "
-                      f"outstanding for hop {pre} (answer identifier {f['ident']})")
+                      f"outstanding for hop {pre}: {why} (answer identifier {f['ident']})")
             att = None
         else:
             if att["ident"] != f["ident"]:
@@ -292,8 +317,9 @@ class Monitor:
                 if g["y"] == f["key"] and g["auth"] == f["auth"] and g["x_used"] == att["xeph"]:
                     genuine = True
                     # the responder's end of this hop lives under the circuit id it answered with
+                    prev = self.pub2name.get(c.hops[pre - 1].public_key_bin) if pre >= 1 else None
                     self.ends.append({"c": c, "index": pre, "node": sel_name, "cid": g["cid"], "where": where,
-                                      "flagged": False})
+                                      "flagged": False, "prev": prev, "route_flagged": False})
                     break
         self.accept[(id(c), pre)] = {"selected": selected, "genuine": genuine, "reasons": reasons, "where": where}
 
@@ -357,6 +383,22 @@ class Monitor:
         # both ends: while the selected peer keeps an entry for the circuit id it answered with, that entry's keys are
         # the keys the originator accepted (at acceptance and after every later datagram)
         for e in self.ends:
+            # forwarding: while the previous hop keeps relay routes for this hop, its forward route points at the selected
+            # peer's entry (address and circuit id) the accepted answer came from
+            if e["prev"] in self.held and not e["route_flagged"]:
+                pov = self.w.ov[e["prev"]]
+                back = pov.relay_from_to.get(e["cid"])
+                fwd = pov.relay_from_to.get(back.circuit_id) if back is not None else None
+                if fwd is not None:
+                    want = tuple(self.w.nodes[e["node"]].address)
+                    if fwd.circuit_id != e["cid"] or tuple(fwd.hop.address) != want:
+                        e["route_flagged"] = True
+                        to = self.addr2name.get(tuple(fwd.hop.address), "?")
+                        self.flag("established-hop:relay-route-changed",
+                                  f"{e['prev']} forwards the originator's circuit to {to} (circuit id {fwd.circuit_id}) instead "
+                                  f"of the established hop {e['index']} = {e['node']} (circuit id {e['cid']}) at "
+                                  f"t={self.w.loop.time():.1f}; {e['where']}")
+        for e in self.ends:
             if e["flagged"] or e["index"] >= len(e["c"].hops):
                 continue
             mine = fingerprint(e["c"].hops[e["index"]].keys)
@@ -376,6 +418,10 @@ class Monitor:
                 names = [self.pub2name.get(h.public_key_bin, "?") for h in hops]
                 self.flag("hop-list:same-hop-twice", f"circuit #{self._cno(c)} lists the same hop object more than once: "
                           f"{names} ({c.state}, goal {c.goal_hops} hops)")
+            if len(hops) > c.goal_hops and not any(k == "hop-list:more-hops-than-goal" for k, _ in self.viol):
+                names = [self.pub2name.get(h.public_key_bin, "?") for h in hops]
+                self.flag("hop-list:more-hops-than-goal", f"circuit #{self._cno(c)} has {len(hops)} hops {names} for a goal "
+                          f"of {c.goal_hops}")
             if len(hops) < len(snaps):
                 self.flag("established-hop:removed", f"circuit #{self._cno(c)} went from {len(snaps)} to {len(hops)} hops")
             for i, s in enumerate(snaps[:len(hops)]):
@@ -492,6 +538,7 @@ class Interceptor:
         self.diverted: set = set()
         world.send_hook = self.hook
         world.idle_hook = self.on_idle
+        mon.accept_listeners.append(self.on_accept)
         self.pred_counts: Counter = Counter()
         self.pred_wait: dict[int, tuple] = {}
         for k, m in enumerate(plan):
@@ -521,7 +568,17 @@ class Interceptor:
             self.w.loop.call_later(cond[1], self._release, p)
         elif cond[0] == "retry":
             self.w.loop.call_later(16.0, self._release, p)      # fallback when the originator never retries
+        elif cond[0] == "conv":
+            self.w.loop.call_later(24.0, self._release, p)      # fallback when no retried extend ever completes
         self.pending.append(p)
+
+    def on_accept(self, rec: dict) -> None:
+        """("conv", dt): release dt seconds after a retried extend completed at the originator (t >= 9.9)."""
+        if rec["accepted"] and self.w.loop.time() >= 9.9:
+            for p in self.pending:
+                if p["cond"][0] == "conv" and not p.get("armed"):
+                    p["armed"] = True
+                    self.w.loop.call_later(p["cond"][1], self._release, p)
 
     def _release(self, p: dict) -> None:
         if p in self.pending:
@@ -588,6 +645,12 @@ class Interceptor:
                     out = self._on_created(out, m, n)
         elif kind == "cell:enc":
             for m in self.plan:
+                if m["site"] == "link0" and m["op"] == "abandoned" and out and src == "O" and dst == self.path[0] \
+                        and n == (m["j"] - 1) * self.ncirc + m["c"] and m["req_delay"] > 0:
+                    self.applied.append("link0:abandoned:extend-delayed")
+                    self.hold(out[0], ("t", m["req_delay"]))     # network latency on the extend: the relay starts later
+                    out = out[1:]
+                    continue
                 if m["site"] == "reqenc" and out:
                     # the encrypted extend for hop j on forward link l: O -> path[0] (l = 0) or path[l-1] -> path[l]
                     lk = m["link"]
@@ -629,6 +692,10 @@ class Interceptor:
         op = m["op"]
         if op in ("drop", "dup", "delay", "late"):
             return self._net_op(out, m)
+        if op == "abandoned":
+            self.applied.append("link0:abandoned:created-held")
+            self.hold(dg, ("conv", m["offset"]))
+            return out[1:]
         if op in ("mitm", "answer_by"):
             return self._created_after_create_rule(out, m)
         f = self.w.cell_fields(dg.data)
@@ -894,7 +961,23 @@ def run_one(scn: tuple, plan: list[dict], seed: int):  # noqa: ANN201
         honest = not plan
         if honest:
             _honest_checks(w, mon, circuits, h, "after build")
-        w.run_for(HORIZON)
+        gaps = [p for p in icp.pending if p["cond"][0] == "gap"]
+        if gaps:
+            # deliver the held-back answer in the k-th loop iteration at the RetryRequestCache deadline
+            p = gaps[0]
+            sent = max((a[-1]["t"] for a in mon.attempts.values() if a), default=0.0)
+            deadline = sent + ov.settings.next_hop_timeout
+            if deadline - 0.001 > w.loop.time():
+                w.run_for(deadline - 0.001 - w.loop.time())
+            seams.CLOCK.set(deadline)
+            for _ in range(p["cond"][1]):
+                w.loop.iteration()
+            icp.pending.remove(p)
+            w.wire_log.append(p["dg"])
+            w.deliver_datagram(p["dg"], False)
+            w.loop.iteration()
+            mon.step()
+        w.run_for(HORIZON - w.loop.time() if gaps else HORIZON)
         if honest:
             _honest_checks(w, mon, circuits, h, f"after {HORIZON:.0f}s")
         mon.final()
@@ -1036,6 +1119,23 @@ def request_ops(h: int, c: int, reduced: bool) -> list[dict]:
     return ops
 
 
+def timing_ops(h: int, c: int, spare: bool) -> list[dict]:
+    """Answers around the retry timer: in the k-th loop iteration at the RetryRequestCache deadline (answer held on the
+    last link to the originator), and - with a spare peer to retry with - the created of the abandoned attempt reaching
+    the relay dt seconds after the retried extend completed (the extend itself reached the relay req_delay s late)."""
+    ops = []
+    for j in range(h):
+        for k in range(6):
+            if j == 0:
+                ops.append(dict(site="link0", j=0, c=c, op="late", when=("gap", k)))
+            else:
+                ops.append(dict(site="enc", j=j, c=c, link=0, op="late", when=("gap", k)))
+    if spare and h == 3:
+        ops += [dict(site="link0", j=1, c=c, op="abandoned", req_delay=d, offset=dt)
+                for d in (0.0, 6.0) for dt in (0.0, 2.5, 4.9, 5.1, 10.0)]
+    return ops
+
+
 def flipdup_ops(h: int, c: int) -> list[dict]:
     """A copy with corrupted candidates_enc plus the genuine copy of the same answer (a pair, but a tiny family)."""
     ops = []
@@ -1051,13 +1151,15 @@ def flipdup_ops(h: int, c: int) -> list[dict]:
     return ops
 
 
-def site_ops(h: int, ncirc: int, cand_lens: dict, thorough: bool, reduced: bool = False) -> list[dict]:
+def site_ops(h: int, ncirc: int, cand_lens: dict, thorough: bool, reduced: bool = False, spare: bool = False) -> list[dict]:
     """Every single manipulation of a scenario."""
     ops: list[dict] = []
     for c in range(ncirc if not reduced else 1):
         ops += request_ops(h, c, reduced)
         if not reduced:
             ops += flipdup_ops(h, c)
+            if c == 0:
+                ops += timing_ops(h, c, spare)
     for c in range(ncirc if not reduced else 1):
         for site, j in answer_sites(h):
             ops += field_ops(site, j, c, h, cand_lens.get(j, 40), thorough, reduced)
@@ -1163,10 +1265,10 @@ def build_jobs(thorough: bool, seed: int) -> tuple[list, dict]:
         h, ncirc, spare = scn
         lens = baseline_cand_lens(scn, seed)
         jobs.append((scn, []))
-        singles = site_ops(h, ncirc, lens, thorough)
+        singles = site_ops(h, ncirc, lens, thorough, spare=spare)
         if spare:
             # with spares only what differs matters: the retry goes to an alternative peer
-            singles = [m for m in singles if m["op"] in ("drop", "late", "dup", "flipdup", "self_answer", "answer_by", "mitm",
+            singles = [m for m in singles if m["op"] in ("drop", "late", "dup", "flipdup", "abandoned", "self_answer", "answer_by", "mitm",
                                                           "subst")
                        or (m["op"] in ("flip", "set") and (m.get("field") == "cand" or m.get("i") in (0, 15)))]
         if ncirc == 2 and not thorough:
